@@ -1116,6 +1116,7 @@ class NestedPipeFunc(PipeFunc):
         self.profiling_stats = None
         self.post_execution_hook = None
         self.error_snapshot = None
+        self.internal_shape = None  # read by `Pipeline.map` (`_construct_internal_shapes`) for every function
         self.mapspec = self._combine_mapspecs() if mapspec is None else _maybe_mapspec(mapspec)
         for f in self.pipeline.functions:
             f.mapspec = None  # MapSpec is handled by the NestedPipeFunc
